@@ -34,7 +34,8 @@ float/bool/None, so a model survives json.dumps/loads and can be stored as a rep
 
 Termination: every ``while`` carries an explicit fuel counter (a fresh local ``_fN`` initialised on the line before
 the loop, decremented as first statement of the body, tested either in the loop condition or by an ``if … break``
-guard); ``for`` loops iterate over bounded iterables only (``range(min(e, N))``, ``seq[:N]``, bounded generators);
+guard); ``for`` loops and comprehensions iterate over bounded iterables only (``range(min(e, N))``, the copy ``seq[:N]``,
+``sorted(d)``, bounded generators), never over a list object the body could grow;
 functions call only functions defined earlier (no recursion); operators that could grow a value multiplicatively
 (``a * b``, ``s + t``, ``xs + ys``, ``s * n``) always have a small constant operand, so sizes grow additively.
 
@@ -871,10 +872,11 @@ class _Gen:
         if r < 6 and self.gens and self.has("genfunc"):
             g = self.pick(self.gens)
             return self.call_of(env, g, 1), "gen"
+        # Always iterate over a bounded *copy* (``xs[:N]``): the loop body (or a function called from a comprehension) may
+        # append to the very list that is being iterated, which would never terminate on the list itself.
         names = env.of("list")
-        if names and r < 8:
-            return N(self.pick(names)), "list"
-        return {"k": "slice", "o": self.expr(env, "list", min(d, 1)), "lo": None, "hi": C(FOR_CAP)}, "list"
+        src = N(self.pick(names)) if names and r < 8 else self.expr(env, "list", min(d, 1))
+        return {"k": "slice", "o": src, "lo": None, "hi": C(FOR_CAP)}, "list"
 
     def comp(self, env: _Env, kind: str, d: int, elt_t: str = "int") -> dict[str, Any]:
         var = self.fresh("c")
